@@ -372,7 +372,7 @@ def greg_facts(ac, b):
     for y in (1, 10000):
         for ax in ac.ax_year(y):
             b.assume(ax)
-    b.assume(And(cal_abs.soy(ac.cid, 1) == dt_models.MIN_ORD, cal_abs.soy(ac.cid, 10000) == dt_models.MAX_ORD + 1))
+    b.assume(And(cal_abs.soy(ac.cid, 1) == dt_models.MIN_ORD, cal_abs.soy(ac.cid, 10000) == dt_models.MAX_ORD + 1, cal_abs.soy(ac.cid, -9998) == -4371222))
     b.assume(ac.ax_mono(1, 10000))
     b.assume(ac.ax_mono(-9998, 1))
 
